@@ -1,8 +1,312 @@
-(* C17 (stub while the pipeline is brought up) *)
-From Coq Require Import String List.
+(* C17: writes are confined, atomic and never delete hand-written files.
+
+   Model: Model/Fs.v (inode-level directory, the operations of one run in the
+   order main/notedownSrc/Clean issue them).  A crash point is a prefix [p] of
+   the operation list [plan c init outs]; [prefix_of p l] holds exactly for the
+   lists [firstn k l] (C17_crash_points).  Quantifiers: every directory state
+   [init] (names, hard links = shared inodes, contents), every list of outputs
+   in every order (main ranges over a Go map), every chunking of every write
+   (partial writes), every choice of temporary names accepted by O_EXCL, all
+   four subcommands (c_cmd), Dir = "." or not (c_dirdot), Clean active or not.
+
+   [good c init outs] collects the guards:
+     g_nofds, g_wf   the shoot process starts without open files; inode numbers in use are below [next]
+     g_ok            output names are distinct (keys of a Go map); temp names are distinct, did not
+                     exist (O_EXCL) and are not output names  - C17_real_names_meet_the_guards shows
+                     that the names shoot really uses satisfy this
+     g_spares        Clean does not select what this run wrote (false on the input class of the open
+                     finding K_clean_own_output, see C17_refuted_K_clean_own_output; true for the
+                     all-in-one output whenever Dir is "." or the finding is repaired, see
+                     C17_guard_holds_from_the_package_dir_or_after_repair)
+   That rename(2) rebinds the destination in one step is the semantics of
+   [Rename] in the model, not a theorem. *)
+From Coq Require Import String Ascii List Bool Arith.
 From Shoot Require Import Model.Fs Proofs.FsProofs.
 Import ListNotations.
+Local Open Scope string_scope.
 
-Theorem C17_exec_app : forall s a b, exec s (a ++ b) = exec (exec s a) b.
-Proof. exact exec_app. Qed.
-Print Assumptions C17_exec_app.
+(* ---- atomic replacement: at every crash point every output name shows the
+   complete old file (or is still absent) or the complete new one *)
+Theorem C17_atomic_at_every_crash_point : forall c init outs p o,
+  good c init outs -> prefix_of p (plan c init outs) -> In o outs ->
+  visible (exec init p) (o_name o) = visible init (o_name o) \/
+  visible (exec init p) (o_name o) = Some (new_bytes o).
+Proof. intros c init outs p o G. exact (atomic c init outs G p o). Qed.
+Print Assumptions C17_atomic_at_every_crash_point.
+
+(* ---- confinement: a name that is neither an output, nor one of this run's
+   temporaries, nor selected by Clean keeps its inode and its bytes at every
+   crash point *)
+Theorem C17_frame : forall c init outs p n,
+  good c init outs -> prefix_of p (plan c init outs) ->
+  ~ In n (names outs) -> ~ In n (temps outs) ->
+  ~ In n (victims c (exec init (write_ops (c_fd c) outs))) ->
+  lookup n (dir (exec init p)) = lookup n (dir init) /\ visible (exec init p) n = visible init n.
+Proof. intros c init outs p n G. exact (frame c init outs G p n). Qed.
+Print Assumptions C17_frame.
+
+(* a file selected by Clean is, at every crash point, complete and unchanged or gone *)
+Theorem C17_victim_old_or_gone : forall c init outs p n,
+  good c init outs -> prefix_of p (plan c init outs) ->
+  In n (victims c (exec init (write_ops (c_fd c) outs))) ->
+  visible (exec init p) n = visible init n \/ visible (exec init p) n = None.
+Proof. intros c init outs p n G. exact (victim_old_or_gone c init outs G p n). Qed.
+Print Assumptions C17_victim_old_or_gone.
+
+(* no file appears under a name that is not an output or a temporary *)
+Theorem C17_only_outputs_and_temps_appear : forall c init outs p n,
+  good c init outs -> prefix_of p (plan c init outs) ->
+  lookup n (dir (exec init p)) <> None -> lookup n (dir init) = None ->
+  In n (names outs) \/ In n (temps outs).
+Proof. intros c init outs p n G. exact (new_names_are_outputs_or_temps c init outs G p n). Qed.
+Print Assumptions C17_only_outputs_and_temps_appear.
+
+(* ---- no pre-existing inode is ever written: whatever name (hard link) or open
+   descriptor refers to it keeps seeing the old bytes *)
+Theorem C17_old_inodes_keep_their_bytes : forall c init outs p j,
+  good c init outs -> prefix_of p (plan c init outs) -> j < next init ->
+  data (exec init p) j = data init j.
+Proof. intros c init outs p j G. exact (old_inodes_keep_bytes c init outs G p j). Qed.
+Print Assumptions C17_old_inodes_keep_their_bytes.
+
+Theorem C17_hard_link_keeps_old_output : forall c init outs p o l i,
+  good c init outs -> prefix_of p (plan c init outs) -> In o outs ->
+  lookup (o_name o) (dir init) = Some i -> lookup l (dir init) = Some i ->
+  ~ In l (names outs) -> ~ In l (temps outs) ->
+  ~ In l (victims c (exec init (write_ops (c_fd c) outs))) ->
+  visible (exec init p) l = visible init (o_name o).
+Proof. intros c init outs p o l i G. exact (hard_link_keeps_old c init outs G p o l i). Qed.
+Print Assumptions C17_hard_link_keeps_old_output.
+
+(* ---- concurrent reader: the inode a reader obtained by opening any name other
+   than a temporary, at any instant, is never written afterwards *)
+Theorem C17_reader_stability : forall c init outs p r n i,
+  good c init outs -> prefix_of (p ++ r)%list (plan c init outs) ->
+  ~ In n (temps outs) -> lookup n (dir (exec init p)) = Some i ->
+  data (exec init (p ++ r)) i = data (exec init p) i.
+Proof. intros c init outs p r n i G. exact (reader_stability c init outs G p r n i). Qed.
+Print Assumptions C17_reader_stability.
+
+(* ---- normal termination: every output holds its new content, no temporary
+   name remains, no descriptor is open, the selected files are gone and
+   everything else is as before *)
+Theorem C17_no_temp_left : forall c init outs,
+  good c init outs ->
+  let s := exec init (plan c init outs) in
+  (forall o, In o outs -> visible s (o_name o) = Some (new_bytes o)) /\
+  (forall t, In t (temps outs) -> lookup t (dir s) = None) /\
+  (forall n, In n (victims c (exec init (write_ops (c_fd c) outs))) -> lookup n (dir s) = None) /\
+  (forall n, ~ In n (names outs) -> ~ In n (temps outs) ->
+             ~ In n (victims c (exec init (write_ops (c_fd c) outs))) ->
+             lookup n (dir s) = lookup n (dir init) /\ visible s n = visible init n) /\
+  nofds s.
+Proof. intros c init outs G. exact (final_state c init outs G). Qed.
+Print Assumptions C17_no_temp_left.
+
+(* the model's run never hits a failing system call *)
+Theorem C17_plan_never_fails : forall c init outs,
+  good c init outs -> keys_nodup (dir init) -> all_ok init (plan c init outs) = true.
+Proof. exact plan_all_ok. Qed.
+Print Assumptions C17_plan_never_fails.
+
+(* ---- the all-in-one cleanup: which files are selected, stated on the
+   directory as it was before the run *)
+Theorem C17_victims_are_superseded_outputs : forall c init outs n,
+  good c init outs -> ~ In n (names outs) ->
+  (In n (victims c (exec init (write_ops (c_fd c) outs))) <-> victim_spec c init n = true).
+Proof. intros c init outs n G. exact (victims_char c init outs G n). Qed.
+Print Assumptions C17_victims_are_superseded_outputs.
+
+(* selected = the run is an all-in-one run, the name matches *.shoot<cmd>*.go, the
+   first line starts with the header of the same subcommand and is not an
+   all-in-one header *)
+Theorem C17_selected_means : forall c init n, victim_spec c init n = true ->
+  c_clean c = true /\ glob (c_cmd c) n = true /\
+  exists b, visible init n = Some b /\ is_aio (first_line b) = false /\
+            exists r, first_line b = gen_prefix (c_cmd c) ++ r.
+Proof. exact victim_spec_sound. Qed.
+Print Assumptions C17_selected_means.
+
+(* never a hand-written file: a file whose first line is not such a header keeps
+   its name, inode and bytes at every crash point (unless it sits on an output name) *)
+Theorem C17_hand_written_never_removed : forall c init outs p n b,
+  good c init outs -> prefix_of p (plan c init outs) -> ~ In n (names outs) ->
+  visible init n = Some b -> is_gen (c_cmd c) (first_line b) = false ->
+  lookup n (dir (exec init p)) = lookup n (dir init) /\ visible (exec init p) n = Some b.
+Proof.
+  intros c init outs p n b G Hp Hn V Hg.
+  destruct (not_selected_untouched c init outs p n G Hp Hn) as [L V'].
+  - unfold visible in V. destruct (lookup n (dir init)); congruence.
+  - exact (hand_written_not_selected c init n b V Hg).
+  - split; [exact L|congruence].
+Qed.
+Print Assumptions C17_hand_written_never_removed.
+
+(* nor an all-in-one file, nor a file of another name pattern, nor anything when
+   the run is not an all-in-one run *)
+Theorem C17_not_selected_untouched : forall c init outs p n,
+  good c init outs -> prefix_of p (plan c init outs) ->
+  ~ In n (names outs) -> lookup n (dir init) <> None -> victim_spec c init n = false ->
+  lookup n (dir (exec init p)) = lookup n (dir init) /\ visible (exec init p) n = visible init n.
+Proof. exact not_selected_untouched. Qed.
+Print Assumptions C17_not_selected_untouched.
+
+(* ---- names: what fileName produces matches *.shoot<cmd>*.go, for every source
+   file name and type name; conversely a matching name has that shape; the
+   temporaries of CreateTemp never match *)
+Theorem C17_output_names_match_pattern : forall cmd gofile T, glob cmd (file_name cmd gofile T) = true.
+Proof. exact file_name_glob. Qed.
+Print Assumptions C17_output_names_match_pattern.
+
+Theorem C17_pattern_means : forall cmd n, glob cmd n = true ->
+  exists X Y, n = X ++ ".shoot" ++ cmd ++ Y ++ ".go".
+Proof.
+  intros cmd n H. destruct (glob_sound cmd n H) as (X & Y & E). exists X, Y.
+  rewrite E. unfold glob_mid. now rewrite !sapp_assoc.
+Qed.
+Print Assumptions C17_pattern_means.
+
+Theorem C17_temp_names_never_match : forall cmd f r,
+  all_digits r = true -> r <> "" -> glob cmd (tmp_name f r) = false.
+Proof. exact tmp_name_not_glob. Qed.
+Print Assumptions C17_temp_names_never_match.
+
+(* ... and they are single path components: dir/name lies directly in the package
+   directory (the source file name is a base name, the type name an identifier) *)
+Theorem C17_output_names_stay_in_the_directory : forall cmd gofile T,
+  noslash cmd = true -> noslash gofile = true -> noslash T = true ->
+  noslash (file_name cmd gofile T) = true.
+Proof. exact file_name_noslash. Qed.
+Print Assumptions C17_output_names_stay_in_the_directory.
+
+Theorem C17_temp_names_stay_in_the_directory : forall f r,
+  noslash f = true -> all_digits r = true -> noslash (tmp_name f r) = true.
+Proof. exact tmp_name_noslash. Qed.
+Print Assumptions C17_temp_names_stay_in_the_directory.
+
+(* the guard g_ok holds for the names shoot uses: outputs named by the pattern,
+   temporaries .<output>_<digits> that did not exist *)
+Theorem C17_real_names_meet_the_guards : forall cmd init outs,
+  NoDup (names outs) -> (forall o, In o outs -> shaped cmd o) ->
+  (forall t, In t (temps outs) -> lookup t (dir init) = None) ->
+  okouts init outs.
+Proof. exact shaped_okouts. Qed.
+Print Assumptions C17_real_names_meet_the_guards.
+
+(* g_spares for the all-in-one output: Clean's own-file test succeeds when Dir is "." and,
+   once K_clean_own_output is repaired (c_fixed), for every Dir *)
+Theorem C17_guard_holds_from_the_package_dir_or_after_repair : forall c o,
+  (c_dirdot c || c_fixed c) = true -> o_name o = c_genfile c -> spares c o = true.
+Proof. exact own_spares. Qed.
+Print Assumptions C17_guard_holds_from_the_package_dir_or_after_repair.
+
+(* every directory state given as a list of (name, inode, bytes) meets g_nofds, g_wf *)
+Theorem C17_states_meet_the_guards : forall files,
+  nofds (mk_init files) /\ dir_wf (mk_init files) /\ keys_nodup (dir (mk_init files)).
+Proof. exact mk_init_wf. Qed.
+Print Assumptions C17_states_meet_the_guards.
+
+Theorem C17_crash_points : forall (l p : list op) k,
+  prefix_of (firstn k l) l /\ (prefix_of p l -> p = firstn (length p) l).
+Proof. intros l p k. split; [apply prefix_of_firstn|apply prefix_is_firstn]. Qed.
+Print Assumptions C17_crash_points.
+
+(* ------------------------------------------------------------ non-vacuity *)
+(* An all-in-one run of `shoot new -type=*` in a directory with an old
+   all-in-one output that has a hard link, a superseded per-type output, a
+   hand-written look-alike, an all-in-one file of another generate line and a
+   temporary left by an earlier crash; the new file is written in two chunks. *)
+Definition hdr (rest : string) : string := "// Code generated by ""shoot new " ++ rest ++ """; DO NOT EDIT. (v0.7.0)".
+Definition ex_nl : string := String nl "".
+Definition ex_init : fs := mk_init [
+  ("a.go", 0, "package p");
+  ("a.shootnew.go", 1, hdr "-type=*" ++ ex_nl ++ "old");
+  ("bak.orig", 1, hdr "-type=*" ++ ex_nl ++ "old");
+  ("a.shootnew.foo.go", 2, hdr "-type=Foo" ++ ex_nl ++ "stale");
+  ("notes.shootnewish.go", 3, "package p" ++ ex_nl ++ "// hand written");
+  ("_keep.shootnew.go", 4, hdr "-getset -type=*" ++ ex_nl);
+  (".a.shootnew.go_99", 5, "// Code gen")
+].
+Definition ex_out : output :=
+  {| o_name := "a.shootnew.go"; o_tmp := ".a.shootnew.go_4242";
+     o_chunks := [hdr "-type=*" ++ ex_nl; "new"] |}.
+Definition ex_cfg : cfg :=
+  {| c_cmd := "new"; c_clean := true; c_dirdot := true; c_fixed := false; c_genfile := "a.shootnew.go"; c_fd := 3 |}.
+
+Example C17_example_good : good ex_cfg ex_init [ex_out].
+Proof.
+  destruct (mk_init_wf [("a.go", 0, "package p");
+    ("a.shootnew.go", 1, hdr "-type=*" ++ ex_nl ++ "old");
+    ("bak.orig", 1, hdr "-type=*" ++ ex_nl ++ "old");
+    ("a.shootnew.foo.go", 2, hdr "-type=Foo" ++ ex_nl ++ "stale");
+    ("notes.shootnewish.go", 3, "package p" ++ ex_nl ++ "// hand written");
+    ("_keep.shootnew.go", 4, hdr "-getset -type=*" ++ ex_nl);
+    (".a.shootnew.go_99", 5, "// Code gen")]) as (H1 & H2 & _).
+  split; [exact H1|exact H2| |].
+  - apply (shaped_okouts "new").
+    + repeat constructor. intros [].
+    + intros o [<-|[]]. split; [reflexivity|]. exists "4242". repeat split. discriminate.
+    + intros t [<-|[]]. reflexivity.
+  - intros o [<-|[]]. reflexivity.
+Qed.
+
+(* the run of the example: the stale per-type file is selected, the others are not;
+   mid-run (after the first chunk) the old file is still visible and a temporary exists *)
+Example C17_example_run :
+  victims ex_cfg (exec ex_init (write_ops 3 [ex_out])) = ["a.shootnew.foo.go"] /\
+  length (plan ex_cfg ex_init [ex_out]) = 11 /\
+  visible (exec ex_init (firstn 2 (plan ex_cfg ex_init [ex_out]))) "a.shootnew.go" = visible ex_init "a.shootnew.go" /\
+  visible (exec ex_init (firstn 2 (plan ex_cfg ex_init [ex_out]))) ".a.shootnew.go_4242" = Some (hdr "-type=*" ++ ex_nl) /\
+  let s := exec ex_init (plan ex_cfg ex_init [ex_out]) in
+  visible s "a.shootnew.go" = Some (hdr "-type=*" ++ ex_nl ++ "new") /\
+  visible s "bak.orig" = Some (hdr "-type=*" ++ ex_nl ++ "old") /\
+  visible s "a.shootnew.foo.go" = None /\
+  visible s "notes.shootnewish.go" = visible ex_init "notes.shootnewish.go" /\
+  visible s "_keep.shootnew.go" = visible ex_init "_keep.shootnew.go" /\
+  visible s ".a.shootnew.go_99" = Some "// Code gen" /\
+  visible s ".a.shootnew.go_4242" = None.
+Proof. vm_compute. repeat split. Qed.
+
+(* two outputs in one run (-type=A,B): separate files, Clean inactive *)
+Definition ex_outs2 : list output :=
+  [ {| o_name := "a.shootnew.foo.go"; o_tmp := ".a.shootnew.foo.go_17"; o_chunks := [hdr "-type=Foo,Bar" ++ ex_nl ++ "foo"] |};
+    {| o_name := "b.shootnew.bar.go"; o_tmp := ".b.shootnew.bar.go_18"; o_chunks := [hdr "-type=Foo,Bar" ++ ex_nl ++ "bar"] |} ].
+Definition ex_cfg2 : cfg := {| c_cmd := "new"; c_clean := false; c_dirdot := false; c_fixed := false; c_genfile := ""; c_fd := 3 |}.
+Example C17_example_good2 : good ex_cfg2 ex_init ex_outs2.
+Proof.
+  pose proof C17_example_good as [H1 H2 _ _].
+  split; [exact H1|exact H2| |].
+  - apply (shaped_okouts "new").
+    + repeat constructor; cbn; intuition discriminate.
+    + intros o [<-|[<-|[]]]; (split; [reflexivity|]); [exists "17"|exists "18"]; repeat split; discriminate.
+    + intros t [<-|[<-|[]]]; reflexivity.
+  - intros o [<-|[<-|[]]]; reflexivity.
+Qed.
+
+(* ---- the open finding: with a [dir] argument and the star passed as a separate
+   argument the guard g_spares fails, and the run deletes what it wrote *)
+Definition kf_out : output :=
+  {| o_name := "a.shootnew.go"; o_tmp := ".a.shootnew.go_1";
+     o_chunks := ["// Code generated by ""shoot new -type * ./p""; DO NOT EDIT. (v0.7.0)" ++ ex_nl] |}.
+Definition kf_cfg : cfg :=
+  {| c_cmd := "new"; c_clean := true; c_dirdot := false; c_fixed := false; c_genfile := "a.shootnew.go"; c_fd := 3 |}.
+Definition kf_init : fs := mk_init [("a.go", 0, "package p")].
+
+Theorem C17_refuted_K_clean_own_output :
+  exists c init outs o,
+    nofds init /\ dir_wf init /\ okouts init outs /\ In o outs /\
+    spares c o = false /\
+    (* all other guards hold, yet after normal termination the output is not there *)
+    visible (exec init (plan c init outs)) (o_name o) = None /\
+    visible (exec init (plan c init outs)) (o_name o) <> Some (new_bytes o).
+Proof.
+  exists kf_cfg, kf_init, [kf_out], kf_out.
+  destruct (mk_init_wf [("a.go", 0, "package p")]) as (H1 & H2 & _).
+  split; [exact H1|]. split; [exact H2|]. split.
+  - apply (shaped_okouts "new").
+    + repeat constructor. intros [].
+    + intros o [<-|[]]. split; [reflexivity|]. exists "1". repeat split. discriminate.
+    + intros t [<-|[]]. reflexivity.
+  - split; [now left|]. split; [reflexivity|]. split; [reflexivity|]. vm_compute. discriminate.
+Qed.
+Print Assumptions C17_refuted_K_clean_own_output.
